@@ -617,6 +617,59 @@ def make_wsgi_multipart_empty_name(size):
     return q
 
 
+def make_wsgi_interleaved(nops):
+    """two uploads and the raw body are views of one buffered body: the handler reads them in pieces in a solver-chosen
+    order (which view, how many bytes), every piece is what that view holds at its own position, above and below the
+    spool threshold"""
+    da, db = b"AAAaaaa", b"BBbbb"
+    body = (b'--B\r\nContent-Disposition: form-data; name="a"; filename="a"\r\n\r\n' + da +
+            b'\r\n--B\r\nContent-Disposition: form-data; name="b"; filename="b"\r\n\r\n' + db + b'\r\n--B--\r\n')
+    n = len(body)
+
+    def q(o1: int, o2: int, o3: int, o4: int, n1: int, n2: int, n3: int, n4: int, spool: bool):
+        ops = [(o1, n1), (o2, n2), (o3, n3), (o4, n4)][:nops]
+        for i, (o, k) in enumerate([(o1, n1), (o2, n2), (o3, n3), (o4, n4)]):
+            assume((0 <= o <= 3 and 1 <= k <= 3) if i < nops else (o == 0 and k == 1))
+        t = 110 if spool else n + 1            # (the part headers, 53 bytes each, fit the in-memory budget either way)
+
+        def handler_of(app, seen):
+            def h():
+                rq = app.request
+                fa, fb, raw = rq.files["a"].file, rq.files["b"].file, rq.body
+                rawpos = 0         # (the raw body is the file object the uploads are windows of: its position is moved by
+                for o, k in ops:   #  their reads, so it is positioned before each use; the uploads keep positions of their own)
+                    if o == 0:
+                        seen.append(("a", fa.read(k)))
+                    elif o == 1:
+                        seen.append(("b", fb.read(k)))
+                    elif o == 2:
+                        raw.seek(rawpos)
+                        seen.append(("raw", raw.read(k)))
+                        rawpos += k
+                    else:
+                        seen.append(("a-all", fa.read()))
+                seen.append(("spooled", raw.spooled))
+                return "done"
+            return h
+        s = stubs.SymStream(n, [], data=body)
+        status, out, seen = serve(handler_of, None, t, s, CONTENT_TYPE="multipart/form-data; boundary=B", CONTENT_LENGTH=str(n))
+        if status != 200:
+            return "two small uploads answered %r %r" % (status, out)
+        pos = {"a": 0, "b": 0, "raw": 0}
+        data = {"a": da, "b": db, "raw": body}
+        for (o, k), (who, got) in zip(ops, seen):
+            view = who.split("-")[0]
+            want = data[view][pos[view]:] if who == "a-all" else data[view][pos[view]:pos[view] + k]
+            pos[view] += len(want)
+            if got != want:
+                return "reads %r: view %r gave %r, it holds %r at its position (all pieces: %r)" % (ops, view, got, want, seen[:-1])
+        if seen[-1] != ("spooled", spool):
+            return "body of %d bytes with max_memfile_size %d: spooled = %r" % (n, t, seen[-1])
+        cover("spooled" if spool else "in-memory")
+        return None
+    return q
+
+
 # ---------------------------------------------------------------- query list
 def queries(tier):
     T = tier == "thorough"
@@ -678,6 +731,11 @@ def queries(tier):
             "Ombott.__call__, multipart body with a text field and a part with filename=\"\" carrying %d bytes; handler reads "
             "every value of request.forms, request.POST and request.files; max_memfile_size 100..body length+1 symbolic" % size,
             200 if not T else 600, ["over", "within"] if size > 100 else ["within"], "wsgi/multipart", {"size": size})
+    nops = 3 if not T else 4
+    add("wsgi/multipart/interleaved/%d" % nops, make_wsgi_interleaved(nops),
+        "Ombott.__call__, multipart body with two uploads (7 and 5 bytes): the handler makes %d reads, each a solver choice of "
+        "upload a / upload b / the raw body / the rest of upload a and of 1..3 bytes; max_memfile_size below or above the body "
+        "(solver bool)" % nops, 200 if not T else 600, ["spooled", "in-memory"], "wsgi/multipart", {"reads": nops})
     for c in ([0, 4, 8] if not T else [0, 1, 2, 4, 7, 8, 9]):
         add("wsgi/raw/cl%d" % c, make_wsgi_raw_cl(c, True),
             "Ombott.__call__, POST handler returning Request.body: Content-Length=%d, 0..8 real bytes available (symbolic), "
